@@ -123,6 +123,62 @@ def c13_wiring(tier, rng):
             "samples": [{"counter": "ExonCounter"}]}
 
 
+@finite("C13.constructor_wiring", ["C13", "C01"], note="the production wiring CombinedProfileConstructor(gene_info, params) for the four matching "
+        "presets: the intron and exon comparators agree with equal_ranges(.., delta) on a grid of interval pairs around the tolerance, and the "
+        "intron absence condition holds for every (read span, intron) pair that shares at least params.minimal_intron_absence_overlap bases "
+        "and fails for every pair that does not overlap (behavioural: the callables are applied, their construction is not inspected)")
+def c13_constructor_wiring(tier, rng):
+    from contracts import pipeline_harness as H
+    lrp = native.repo_import("src/long_read_profiles.py")
+    com = native.repo_import("src/common.py")
+    obl = dis = cases = 0
+    viol = []
+    for matching in ("exact", "precise", "default", "loose"):
+        params = H.make_params("default_ont", matching)
+        gi = H.gene_info_of([("T1", "+", [(1000, 1100), (2000, 2100), (3000, 3100)])], params.delta)
+        cpc = lrp.CombinedProfileConstructor(gi, params)
+        d, m = params.delta, params.minimal_intron_absence_overlap
+        bad = {"intron comparator": None, "exon comparator": None, "intron absence (overlap >= %d)" % m: None, "intron absence (disjoint)": None}
+        base = (5000, 5400)
+        offs = sorted({0, 1, -1, d, -d, d + 1, -d - 1, 2 * d + 1})
+        for da in offs:
+            for db in offs:
+                cases += 1
+                other = (base[0] + da, base[1] + db)
+                want = abs(da) <= d and abs(db) <= d
+                for nm, ctor in (("intron comparator", cpc.intron_profile_constructor), ("exon comparator", cpc.exon_profile_constructor)):
+                    if bool(ctor.comparator(other, base)) != want or bool(ctor.comparator(base, other)) != want:
+                        bad[nm] = bad[nm] or {"a": other, "b": base, "delta": d, "got": bool(ctor.comparator(other, base)), "required": want}
+        intron = (5000, 5400)
+        for ov in sorted({1, m - 1, m, m + 1, 2 * m, 100, 400, 401}):
+            for side in ("left", "right", "inside"):
+                cases += 1
+                if side == "left":      # span ends ov bases inside the intron
+                    span = (4000, intron[0] + ov - 1)
+                elif side == "right":   # span starts ov bases before the intron's end
+                    span = (intron[1] - ov + 1, 6000)
+                else:
+                    span = (intron[0] + 10, min(intron[1] - 1, intron[0] + 10 + ov - 1))
+                shared = min(span[1], intron[1]) - max(span[0], intron[0]) + 1
+                got = bool(cpc.intron_profile_constructor.absence_condition(span, intron))
+                if shared >= m and not got:
+                    k = "intron absence (overlap >= %d)" % m
+                    bad[k] = bad[k] or {"span": span, "intron": intron, "shared_bases": shared, "got": got, "required": True}
+        for span in ((4000, 4999), (5401, 6000), (100, 200)):
+            cases += 1
+            if cpc.intron_profile_constructor.absence_condition(span, intron):
+                bad["intron absence (disjoint)"] = {"span": span, "intron": intron, "got": True, "required": False}
+        for nm, w in bad.items():
+            obl += 1
+            if w is None:
+                dis += 1
+            else:
+                viol.append({"obligation": "C13.constructor_wiring.%s.%s" % (matching, nm.split(" (")[0].replace(" ", "_")), "inputs": w,
+                             "observed": "%s: %s" % (nm, w), "required": "as documented in the property (within delta / overlapped by the read's span)"})
+    return {"obligations": obl, "discharged": dis, "violations": viol, "cases": cases, "exhaustive": True,
+            "bound": "4 presets x (64 comparator pairs + 27 span/intron pairs)", "samples": [{"matching": "default", "span": (4000, 5019), "intron": (5000, 5400)}]}
+
+
 # ---- profile semantics (two-pointer sweep with a dict of lists): bounded-exhaustive against the property's definitions -------------------
 def _profile_oracle_problems(kind, known, read, delta, gene_profile, read_profile):
     """what the property says, in the directions that hold for every input:
@@ -183,6 +239,18 @@ def _profile_case(known, read_blocks, delta):
                 problems.append("intron %s inside the read span %s is neither included nor excluded" % (f, span))
             if p2.gene_profile[i] == 1 and not com.overlaps(span, f):
                 problems.append("intron %s included but outside the read span" % (f,))
+        # the production absence condition (an intron sharing >= k bases with the read's span is excluded unless the read contains it)
+        for k in (1, 2, 3):
+            c3 = lrp.OverlappingFeaturesProfileConstructor(known_introns, region, comparator=partial(com.equal_ranges, delta=delta),
+                                                           absence_condition=partial(com.overlaps_at_least, delta=k), delta=delta)
+            p3 = c3.construct_intron_profile(read_blocks)
+            problems += _profile_oracle_problems("intron", known_introns, introns, delta, p3.gene_profile, p3.read_profile)
+            for i, f in enumerate(known_introns):
+                shared = min(span[1], f[1]) - max(span[0], f[0]) + 1
+                if p3.gene_profile[i] == 0 and shared >= k and not any(abs(r[0] - f[0]) <= delta and abs(r[1] - f[1]) <= delta for r in introns):
+                    problems.append("intron %s shares %d >= %d bases with the read span %s but is neither included nor excluded" % (f, shared, k, span))
+                if p3.gene_profile[i] != 0 and shared <= 0:
+                    problems.append("intron %s marked %d but the read span %s does not overlap it" % (f, p3.gene_profile[i], span))
     return problems
 
 
@@ -222,3 +290,24 @@ def c13_profiles(tier, rng):
                         "required": "profile marks follow the property's definitions", "replay_call": "contracts.c_profiles:replay_profile"}]}
     return {"cases": cases, "bound": "block lists with <= 3 blocks over %d coordinates, delta 0..2%s" % (len(coords), " (sampled)" if tier == "quick" else ""),
             "exhaustive": tier != "quick", "violations": [], "samples": [{"known": [(1, 3), (6, 8)], "read": [(1, 3), (6, 9)], "delta": 1}]}
+
+
+# ---- which reads are counted at all -------------------------------------------------------------------------------------------------------
+record("GeneInfoP", {"exon_property_map": "list[rec:FeatureInfoP]", "intron_property_map": "list[rec:FeatureInfoP]"})
+record("ReadAssignmentP", {"exon_gene_profile": "opt[list[int]]", "intron_gene_profile": "opt[list[int]]", "gene_info": "opt[rec:GeneInfoP]",
+                           "read_group": "str"})
+native.RECORD_CLASSES["ReadAssignmentP"] = ("builtin", "namespace")
+native.RECORD_CLASSES["GeneInfoP"] = ("builtin", "namespace")
+native.RECORD_CLASSES["FeatureInfoP"] = ("builtin", "namespace")
+
+contract(L + "ProfileFeatureCounter.is_valid", {"assignment": "opt[rec:ReadAssignmentP]"}, returns="bool", props=["C13"],
+         # every processed read that carries profiles is counted - including reads of loci without annotated introns (or exons),
+         # whose profile is the EMPTY list, not a missing one
+         ensures=["result == (assignment is not None and assignment.exon_gene_profile is not None and "
+                  "assignment.intron_gene_profile is not None and assignment.gene_info is not None)"],
+         gen=lambda rng, n: ({"assignment": rng.choice([None, {"__rec__": "ReadAssignmentP",
+                                                               "exon_gene_profile": rng.choice([None, [], [1, -1, 0]]),
+                                                               "intron_gene_profile": rng.choice([None, [], [1]]),
+                                                               "gene_info": rng.choice([None, {"__rec__": "GeneInfoP", "exon_property_map": [], "intron_property_map": []}]),
+                                                               "read_group": "NA"}])} for _ in range(n)),
+         canary="result == (assignment is not None)")
